@@ -552,7 +552,7 @@ def allclose(a, b, rtol=1e-8, atol=None):
         except TypeError:
             return np.all([_d <= lim for _d in d])
         else:
-            if len(lim) != len(d):  # broadcast both to the common shape
+            if np.shape(lim) != np.shape(d):  # broadcast both to the common shape
                 lim, d = lim + 0 * d, d + 0 * lim
             return np.all([_d <= _lim for _d, _lim in zip(d, lim)])
 
